@@ -307,6 +307,15 @@ func gossipScenario(w *World, p *Plan, rec *Record) {
 						items = append(items, it)
 					}
 				}
+			} else if kind == "trx" && r.Chance(0.35) {
+				// a burst: more awaiting transactions from the same origin while the first is still being sent
+				for d := 0; d < 1+r.Intn(2); d++ {
+					simrt.SleepFor(time.Duration(r.Intn(3)) * time.Millisecond)
+					if it := w.issueItem(k, r, origin, "trx", false); it != nil {
+						items = append(items, it)
+						w.probe("c11-transaction-burst-from-one-origin")
+					}
+				}
 			}
 		}
 		quiet := w.waitQuiet(60 * time.Second)
